@@ -171,6 +171,13 @@ fn no_alloc() {
         let _ = write!(b, "{} {:?} {:#?} {:>20}", s1, s2, s3, s1);
         let _ = write!(b, "{:?} {:?} {:?}", s1.iter().len(), s1.union(&s2), s1.difference(&s3));
         let z: Map<(), (), 1> = Map::new(); let _ = z.len(); let mut zs: Set<(), 1> = Set::new(); zs.insert(()); let _ = zs.contains(&());
+        // containers larger than a page (a "too big for the stack" special case would go to the heap)
+        let mut big: Map<u32, u32, 600> = Map::new(); for i in 0..40u32 { big.insert(i, i); }
+        let bc = big.clone(); let _ = bc == big; let _ = big.get(&7); big.remove(&3); big.retain(|k, _| k % 2 == 0); let _ = big.iter().count();
+        let e: Map<u64, u64, 512> = Map::new(); let ec = e.clone(); let _ = ec.len();
+        let mut wide: Map<u8, [u64; 128], 8> = Map::new(); wide.insert(1, [1; 128]); let wc = wide.clone(); let _ = wc.len(); let _ = wide.drain().count();
+        let mut bs: Set<[u8; 32], 200> = Set::new(); bs.insert([1; 32]); bs.insert([2; 32]); let bsc = bs.clone(); let _ = bsc == bs; let _ = bs.union(&bsc).count(); let _ = (&bs - &bsc).len();
+        let col: Set<[u8; 32], 200> = bs.iter().copied().collect(); let _ = col.len(); let _ = bsc.into_iter().count();
     });
     COUNTING.with(|c| c.set(false));
     let a1 = ALLOCS.with(|a| a.get());
@@ -558,6 +565,20 @@ fn serde_shapes() {
             let back: Result<(Map<u8, V1, 3>, usize), _> = bincode::serde::decode_from_slice(&bytes, bincode::config::standard());
             match back { Ok((b, n)) if b == zb && n == bytes.len() => {}, other => fault(format!("op=shapes SERDE_SHAPE Map<u8, marker, 3> does not round trip through bincode: {} bytes, {:?}", bytes.len(), other.map(|x| (x.0.len(), x.1)))) }
         }
+        {   // zero-sized elements are still len() entries on the wire
+            let mut us: Set<(), 1> = Set::new(); us.insert(());
+            let txt = serde_json::to_string(&us).unwrap();
+            match (txt.as_str(), serde_json::from_str::<Set<(), 2>>(&txt)) { ("[null]", Ok(b)) if b.len() == 1 => {}, other => fault(format!("op=shapes SERDE_SHAPE Set<(),1> with one element serializes as {} and reads back as {:?}", txt, other.1.map(|b| b.len()))) }
+            let bytes = bincode::serde::encode_to_vec(&us, bincode::config::standard()).unwrap();
+            let back: Result<(Set<(), 1>, usize), _> = bincode::serde::decode_from_slice(&bytes, bincode::config::standard());
+            match back { Ok((b, n)) if b.len() == 1 && n == bytes.len() => {}, other => fault(format!("op=shapes SERDE_SHAPE Set<(),1> does not round trip through bincode: {:?}", other.map(|x| (x.0.len(), x.1)))) }
+            #[derive(Debug, PartialEq, Clone, Copy)] struct Tg;
+            impl serde::Serialize for Tg { fn serialize<S: serde::Serializer>(&self, s: S) -> Result<S::Ok, S::Error> { s.serialize_u8(7) } }
+            impl<'de> serde::Deserialize<'de> for Tg { fn deserialize<D: serde::Deserializer<'de>>(d: D) -> Result<Tg, D::Error> { <u8 as serde::Deserialize>::deserialize(d).map(|_| Tg) } }
+            let mut ts: Set<Tg, 4> = Set::new(); ts.insert(Tg);
+            let txt = serde_json::to_string(&ts).unwrap();
+            if txt != "[7]" || serde_json::from_str::<Set<Tg, 4>>(&txt).map(|b| b.len()).ok() != Some(1) { fault(format!("op=shapes SERDE_SHAPE Set<zero-sized tag written as a byte, 4> serializes as {}", txt)); }
+        }
         let nested: Map<u32, Set<u32, 3>, 2> = Map::from([(1, Set::from([1, 2, 3])), (2, Set::new())]);
         let txt = serde_json::to_string(&nested).unwrap();
         match serde_json::from_str::<Map<u32, Set<u32, 3>, 2>>(&txt) { Ok(b) if b == nested => {}, other => fault(format!("op=shapes SERDE_SHAPE nested {} reads back as {:?}", txt, other)) }
@@ -893,6 +914,85 @@ fn tiny_domain_shapes() {
     run::<F8, 4>("one-byte element with a NaN", &vals[..4], &nans);
 }
 
+// == that is determined by its operands but is no equivalence relation (asymmetric "covers", non-transitive "near",
+// a zero-sized value that is never equal): the entry points must still AGREE with each other -- entry(k) is Occupied
+// exactly when the direct lookups find k, bulk construction equals one-by-one insertion, a clone has the same entries
+// in the same slots, == consults the values' own ==
+fn unlawful_operand_shapes() {
+    #[derive(Clone, Copy, Debug)] struct Span(i32, i32);              // a == b  iff  a covers b  (asymmetric)
+    impl PartialEq for Span { fn eq(&self, o: &Span) -> bool { self.0 <= o.0 && o.1 <= self.1 } }
+    #[derive(Clone, Copy, Debug)] struct Near(i32);                   // |a - b| <= 5  (reflexive, symmetric, not transitive)
+    impl PartialEq for Near { fn eq(&self, o: &Near) -> bool { (self.0 - o.0).abs() <= 5 } }
+    #[derive(Clone, Copy, Debug)] struct Unknown;                     // zero-sized, never equal (like SQL NULL)
+    impl PartialEq for Unknown { fn eq(&self, _: &Unknown) -> bool { false } }
+    let r = catch_unwind(|| {
+        let mut rng = Lcg(77);
+        for round in 0..300 {
+            // a history of inserts and removes on Span keys
+            let mut m: Map<Span, u32, 6> = Map::new();
+            let mut st: Set<Span, 6> = Set::new();
+            for step in 0..(4 + rng.below(8)) {
+                let lo = rng.below(6) as i32 * 5; let k = if rng.below(2) == 0 { Span(lo, lo) } else { Span(lo, lo + 5 * rng.below(3) as i32) };
+                if rng.below(4) == 0 { m.remove(&k); st.remove(&k); } else { if m.len() < 6 || m.contains_key(&k) { m.insert(k, step as u32); } if st.len() < 6 || st.contains(&k) { st.insert(k); } }
+                let sc = st.clone();
+                if sc.len() != st.len() || sc.iter().zip(st.iter()).any(|(a, b)| (a.0, a.1) != (b.0, b.1)) || (st.contains(&k) != st.get(&k).is_some()) {
+                    fault(format!("op=shapes SHAPE_UNLAWFUL asymmetric ==: the clone of the set {:?} is {:?}", st, sc)); return; }
+                // every entry point agrees on whether k is present, and on which slot it is
+                let k = Span(rng.below(6) as i32 * 5, rng.below(6) as i32 * 5 + 5 * rng.below(2) as i32);
+                let present = m.contains_key(&k);
+                let via_get = m.get(&k).copied(); let via_kv = m.get_key_value(&k).map(|(_, v)| *v); let via_mut = m.get_mut(&k).map(|v| *v);
+                let idx = catch_unwind(AssertUnwindSafe(|| m[&k])).ok();
+                let mut c = m.clone();
+                let occ = match c.entry(k) { micromap::Entry::Occupied(e) => Some(*e.get()), micromap::Entry::Vacant(_) => None };
+                let rem = m.clone().remove(&k);
+                if via_get.is_some() != present || via_kv != via_get || via_mut != via_get || idx != via_get || occ != via_get || rem != via_get {
+                    fault(format!("op=shapes SHAPE_UNLAWFUL asymmetric ==: the entry points disagree about {:?} in {:?}: contains_key {}, get {:?}, get_key_value {:?}, get_mut {:?}, index {:?}, entry {:?}, remove {:?}", k, m, present, via_get, via_kv, via_mut, idx, occ, rem));
+                    return;
+                }
+                let cl = m.clone();
+                if cl.len() != m.len() || cl.iter().zip(m.iter()).any(|((a, x), (b, y))| (a.0, a.1, *x) != (b.0, b.1, *y)) { fault(format!("op=shapes SHAPE_UNLAWFUL asymmetric ==: the clone of {:?} is {:?}", m, cl)); return; }
+            }
+            let ks: Set<Span, 6> = m.keys().copied().collect::<Vec<_>>().into_iter().fold(Set::new(), |mut s, k| { if s.len() < 6 { s.insert(k); } s });
+            let kc = ks.clone();
+            if kc.len() != ks.len() || kc.iter().zip(ks.iter()).any(|(a, b)| (a.0, a.1) != (b.0, b.1)) { fault(format!("op=shapes SHAPE_UNLAWFUL asymmetric ==: the clone of the set {:?} is {:?}", ks, kc)); return; }
+            // bulk construction = one-by-one insertion, also when == is not transitive
+            let n = 2 + rng.below(5); let items: Vec<(Near, u32)> = (0..n).map(|i| (Near(rng.below(5) as i32 * 5), 100 * round as u32 + i as u32)).collect();
+            let mut one: Map<Near, u32, 8> = Map::new(); for (k, v) in items.iter() { one.insert(*k, *v); }
+            let bulk: Map<Near, u32, 8> = items.iter().copied().collect();
+            let same = |a: &Map<Near, u32, 8>, b: &Map<Near, u32, 8>| a.len() == b.len() && a.iter().zip(b.iter()).all(|((k1, v1), (k2, v2))| k1.0 == k2.0 && v1 == v2);
+            if !same(&bulk, &one) { fault(format!("op=shapes SHAPE_UNLAWFUL non-transitive ==: collect of {:?} gives {:?}, inserting one by one gives {:?}", items, bulk, one)); return; }
+            let mut sone: Set<Near, 8> = Set::new(); for (k, _) in items.iter() { sone.insert(*k); }
+            let sbulk: Set<Near, 8> = items.iter().map(|p| p.0).collect(); let mut sext: Set<Near, 8> = Set::new(); sext.extend(items.iter().map(|p| p.0));
+            let sv = |s: &Set<Near, 8>| s.iter().map(|k| k.0).collect::<Vec<_>>();
+            if sv(&sbulk) != sv(&sone) || sv(&sext) != sv(&sone) { fault(format!("op=shapes SHAPE_UNLAWFUL non-transitive ==: Set collect {:?} / extend {:?} differ from inserting one by one {:?}", sv(&sbulk), sv(&sext), sv(&sone))); return; }
+        }
+        // == of maps consults the values' own ==, whatever their size
+        let mut a: Map<u8, Unknown, 3> = Map::new(); a.insert(1, Unknown); a.insert(2, Unknown);
+        let mut b: Map<u8, Unknown, 5> = Map::new(); b.insert(2, Unknown); b.insert(1, Unknown);
+        let ac = a.clone();
+        #[allow(clippy::eq_op)]
+        if a == b || b == a || a == ac || a == a || !(a != b) { fault("op=shapes SHAPE_UNLAWFUL maps whose (zero-sized) values are never equal compare equal".into()); }
+        let e1: Map<u8, Unknown, 3> = Map::new(); let e2: Map<u8, Unknown, 5> = Map::new();
+        if e1 != e2 { fault("op=shapes SHAPE_UNLAWFUL two empty maps compare unequal".into()); }
+    });
+    if r.is_err() { fault("op=shapes SHAPE_UNLAWFUL the scenario with operand-determined unlawful == panicked".into()); }
+    // difference_ref / difference with UNSIZED elements that share a start address (a word and its prefixes)
+    let r = catch_unwind(|| {
+        let buf = String::from("sandals");
+        let words: Vec<&str> = vec![&buf[..0], &buf[..4], &buf[..6], &buf[..7]];
+        for mask_a in 1u32..16 { for mask_b in 0u32..16 {
+            let mut a: Set<&str, 4> = Set::new(); let mut b: Set<&str, 4> = Set::new();
+            for (i, w) in words.iter().enumerate() { if mask_a >> i & 1 == 1 { a.insert(*w); } if mask_b >> i & 1 == 1 { b.insert(*w); } }
+            let want: Vec<&str> = a.iter().copied().filter(|x| !b.iter().any(|y| y == x)).collect();
+            let got: Vec<&str> = a.difference_ref(&b).collect();
+            let got2: Vec<&str> = a.difference(&b).copied().collect();
+            let folded: Vec<&str> = a.difference_ref(&b).fold(Vec::new(), |mut v, x| { v.push(x); v });
+            if got != want || got2 != want || folded != want { fault(format!("op=shapes SHAPE_BORROW difference of {:?} and {:?} (elements sharing a start address): difference_ref {:?}, difference {:?}, fold {:?}, expected {:?}", a, b, got, got2, folded, want)); return; }
+        } }
+    });
+    if r.is_err() { fault("op=shapes SHAPE_BORROW the aliased-elements difference scenario panicked".into()); }
+}
+
 // stored-key identity with key types WITHOUT drop glue (Copy), where equal keys are distinguishable
 fn identity_shapes() {
     #[derive(Clone, Copy, Debug)] struct Tag { id: u8, rev: u8 }
@@ -909,6 +1009,12 @@ fn identity_shapes() {
         if rev_of(&m, 2) != Some(0) { fault(format!("op=shapes KEY_IDENTITY checked_insert of an equal key on a full map: stored key revision {:?} (must stay 0)", rev_of(&m, 2))); }
         *m.entry(t(3, 1)).or_insert(0) += 1;
         if rev_of(&m, 3) != Some(0) || m.keys().any(|k| k.rev != 0) { fault("op=shapes KEY_IDENTITY the entry API replaced a stored Copy key".into()); }
+        { let mut u: Map<Tag, u8, 4> = Map::new(); u.insert(t(1, 0), 1); u.insert(t(2, 0), 2);
+          let r = unsafe { u.insert_unchecked(t(2, 7), 22) };
+          let rev = u.get_key_value(&t(2, 9)).map(|(k, v)| (k.rev, *v));
+          if r != Some(2) || rev != Some((0, 22)) { fault(format!("op=shapes KEY_IDENTITY insert_unchecked of an equal Copy key (map not full): returned {:?}, stored (revision, value) {:?}; insert keeps the stored key: (0, 22)", r, rev)); }
+          let mut z: Map<f64, u8, 3> = Map::new(); z.insert(0.0, 1); let _ = unsafe { z.insert_unchecked(-0.0, 2) };
+          if z.len() != 1 || !z.keys().next().unwrap().is_sign_positive() { fault("op=shapes KEY_IDENTITY insert_unchecked of -0.0 over a stored 0.0 replaced the stored key".into()); } }
         let old = m.insert_key_value(t(1, 2), 12);
         if old.map(|(k, v)| (k.rev, v)) != Some((0, 11)) || rev_of(&m, 1) != Some(2) { fault(format!("op=shapes KEY_IDENTITY insert_key_value must store the supplied key and hand back the old pair: got {:?}, stored revision {:?}", old, rev_of(&m, 1))); }
         if m.remove_entry(&t(1, 7)).map(|(k, _)| k.rev) != Some(2) { fault("op=shapes KEY_IDENTITY remove_entry does not hand back the stored key object".into()); }
@@ -1051,6 +1157,7 @@ pub fn run() {
     borrow_shapes();
     identity_shapes();
     tiny_domain_shapes();
+    unlawful_operand_shapes();
     disjoint_wide();
     provided_methods();
 }
